@@ -569,7 +569,22 @@ var execPanics = map[ssa.Instruction]string{}
 // end of a top-level run: name -> description. The Cnn-STATE rules report them.
 var globalMutations = map[string]string{}
 
+// nontermSeen counts the interpreted calls of this process (on exact inputs) that ran into the step limit. After a
+// few of them further exact calls are not started: the loop that does not end is the finding, and every further
+// scenario would only spend its whole step budget on it again.
+// oracleProgress counts the input consumed from scripted readers (their position is not part of a State).
+var oracleProgress int
+
+var nontermSeen int
+var nontermMsg string
+
 func (m *Machine) Run(st *State) []*State {
+	if m.Alpha == nil && nontermSeen >= 3 && st.Status == stRun {
+		st.Status = stStuck
+		st.Msg = nontermMsg + " (seen on earlier scenarios of this run; not interpreted again)"
+		st.Notes["nonterm"] = true
+		return []*State{st}
+	}
 	track := m.Alpha == nil && !m.inInit && st.InitMark > 0 && len(st.Frames) == 1 && st.Status == stRun && st.GlobalWrite == ""
 	if !track {
 		outs := mergeSame(m, m.run(st))
@@ -604,14 +619,39 @@ func (m *Machine) run(st *State) []*State {
 	for len(work) > 0 {
 		s := work[len(work)-1]
 		work = work[:len(work)-1]
+		var seenKeys map[string]bool
 		for s.Status == stRun {
 			s.Steps++
+			if m.Alpha == nil && s.Steps%5000 == 0 && s.Steps >= 20000 {
+				// an exact run is deterministic: the same state at the same place twice is a loop that never ends
+				if seenKeys == nil {
+					seenKeys = map[string]bool{}
+				}
+				fr := s.top()
+				k := fmt.Sprintf("%p/%d/%d/%d/%d|", fr.Blk, fr.PC, len(s.Frames), len(s.Effects), oracleProgress) + m.Key(s.Clone())
+				if seenKeys[k] {
+					s.Status = stStuck
+					s.Msg = fmt.Sprintf("NONTERMINATION: the same state is reached again in %s (a loop that changes nothing)", fname(fr.Fn))
+					s.Notes["nonterm"] = true
+					for _, f := range s.Frames {
+						nontermFns[f.Fn] = s.Msg
+					}
+					nontermSeen++
+					nontermMsg = s.Msg
+					break
+				}
+				seenKeys[k] = true
+			}
 			if s.Steps > m.StepLimit {
 				s.Status = stStuck
 				s.Msg = fmt.Sprintf("NONTERMINATION: %d steps without consuming input in %s", m.StepLimit, fname(s.top().Fn))
 				s.Notes["nonterm"] = true
 				for _, fr := range s.Frames {
 					nontermFns[fr.Fn] = s.Msg
+				}
+				if m.Alpha == nil {
+					nontermSeen++
+					nontermMsg = s.Msg
 				}
 				break
 			}
@@ -641,9 +681,21 @@ func (m *Machine) run(st *State) []*State {
 			continue
 		}
 		done = append(done, s)
+		if len(done)+len(work) > maxPaths {
+			// iteration orders of several maps multiplied, an oracle forking at every call, ...: undecided, before the
+			// memory budget is
+			over := st.Clone()
+			over.Status = stStuck
+			over.Msg = fmt.Sprintf("more than %d paths through one call (the iteration orders of several maps multiply)", maxPaths)
+			m.Stuck[over.Msg]++
+			return []*State{over}
+		}
 	}
 	return done
 }
+
+// maxPaths bounds the paths of one interpreted call.
+const maxPaths = 30000
 
 func (m *Machine) step(st *State) (forks []*State) {
 	fr := st.top()
